@@ -57,8 +57,13 @@ def act_to_step(a, k):
         return {"op": "Info", "info": a["ans"]}
     if n == "Timeout":
         return {"op": "Timeout"}
-    if n in ("FetcherAllocate", "StaleFetch"):
+    if n == "FetcherAllocate":
         return {"op": "FetcherAllocate"}
+    if n == "StaleFetch":        # a cancelled fetcher: Allocate, one request, exit
+        out = [{"op": "FetcherAllocate"}]
+        if a["p"] != "nil":
+            out.append({"op": "Request", "i": a["i"], "p": a["p"]})
+        return out
     if n == "RequestChunk":
         return {"op": "Request", "i": a["i"], "p": a["p"]}
     return None
@@ -71,7 +76,9 @@ def acts_to_sched(acts, sid, init_pool=None):
             steps.append({"op": "AddSnapshot", "p": p, "s": s})
     for k, a in enumerate(acts):
         st = act_to_step(a, k)
-        if st is not None:
+        if isinstance(st, list):
+            steps += st
+        elif st is not None:
             steps.append(st)
     return {"id": sid, "steps": steps}
 
@@ -217,7 +224,7 @@ def run(ctx, skip_exhaustive=False):
         ]
     else:
         facets = [
-            ("C14_chunks.cfg", {"MaxArrive": 5, "MaxBad": 2}),
+            ("C14_chunks.cfg", {"MaxArrive": 5, "MaxBad": 3}),
             ("C14_pool.cfg", {"MaxChurn": 3, "MaxBad": 3}),
             ("C14_twin.cfg", {"MaxChurn": 3, "MaxBad": 2}),
             ("C14_fetch.cfg", {"MaxArrive": 3, "MaxBad": 2}),
@@ -268,9 +275,10 @@ def run(ctx, skip_exhaustive=False):
         ]
     else:
         graphs = [
-            ("C14_chunks.cfg", "g_chunks", {"NChunks1": 2, "MaxArrive": 3, "MaxBad": 2}),
+            ("C14_chunks.cfg", "g_chunks", {"NChunks1": 2, "MaxArrive": 3, "MaxBad": 1}),
             ("C14_chunks.cfg", "g_chunks3", {"NChunks1": 3, "MaxArrive": 3, "MaxBad": 1}),
-            ("C14_pool.cfg", "g_pool", {"MaxChurn": 2, "MaxBad": 2}),
+            ("C14_pool.cfg", "g_pool", {"MaxChurn": 2, "MaxBad": 1}),
+            ("C14_gpool.cfg", "g_pool2", {"MaxBad": 2}),
             ("C14_twin.cfg", "g_twin", {"MaxChurn": 2, "MaxBad": 1}),
             ("C14_fetch.cfg", "g_fetch", {"Fetchers": 2, "MaxArrive": 2, "MaxBad": 1}),
         ]
@@ -288,7 +296,7 @@ def run(ctx, skip_exhaustive=False):
         scheds += ss
 
     # ---- 5. simulation of the large config -> schedules
-    nsim = 60 if quick else 2500
+    nsim = 60 if quick else 1500
     simdir = ctx.subdir("sim")
     rs = ctx.tlc("C14_sync", core.cfg_variant(ctx, "C14_sim.cfg", "C14_sim_run.cfg", {}, drop_view=True, invariants=ALLINV),
                  simulate="file=%s,num=%d" % (os.path.join(simdir, "b"), nsim), depth=90, seed=ctx.seed, workers=1,
@@ -309,7 +317,7 @@ def run(ctx, skip_exhaustive=False):
             nsimb += 1
 
     # ---- 6. replay on the real code
-    nrandom = 150 if quick else 6000
+    nrandom = 150 if quick else 3000
     nfree = 150 if quick else 2000
     rows_d, _unused, sum_d = run_harness(ctx, fast, {"scheds": scheds, "random_d": nrandom, "free_f": 0, "par": 8}, "d")
     rows_f = []
@@ -416,10 +424,27 @@ def replay(ctx, path):
     with open(path) as f:
         rep = json.load(f)
     prefix = rep["replay"]["prefix"]
-    sched = rows_to_sched(prefix)
     plain, fast, patched = build(ctx)
-    rows_d, _f, _s = run_harness(ctx, fast, {"scheds": [sched], "random_d": 0, "free_f": 0, "par": 1}, "replay")
-    v = core.validate_traces(ctx, TRACE, rows_d, label="replay")
+    if rep["replay"]["failing_step"].get("mode") == "P":
+        # a state-provider case: the case table is fixed, run it again and judge the same case
+        out_p = ctx.subdir("c14-out-p")
+        rc_p, txt_p = ctx.run_test(plain, "^TestVerifC14SP$", {"VERIF_OUT": out_p}, timeout=900, label="sp")
+        if rc_p != 0:
+            raise Undecided("C14 state-provider harness failed: " + txt_p[-800:])
+        want = {k: rep["replay"]["failing_step"].get(k) for k in ("call", "h", "lie", "at")}
+        rows, keep = [], False
+        for r in core.read_ndjson(os.path.join(out_p, "p.ndjson")):
+            if r.get("ev") == "Reset":
+                keep = False
+                pending = r
+                continue
+            if all(r.get(k) == w for k, w in want.items()):
+                rows += [pending, r]
+        v = core.validate_traces(ctx, TRACE, rows, label="replay")
+    else:
+        sched = rows_to_sched(prefix)
+        rows_d, _f, _s = run_harness(ctx, fast, {"scheds": [sched], "random_d": 0, "free_f": 0, "par": 1}, "replay")
+        v = core.validate_traces(ctx, TRACE, rows_d, label="replay")
     verdict = core.Verdict(ctx)
     add_violations(verdict, v)
     for x in v["viol"]:
